@@ -1678,6 +1678,86 @@ def _shared_c11_identity(chk, prog, tier):
               'effective', sub)
 
 
+def rule_r15(chk, prog):
+    chk.rule('C03.R15', 'the progress measure that ends ddmin\'s rounds is '
+             'the exact change in size: what a worker reports as "reduced" '
+             'is the plain difference of the same counter before and after '
+             '(it may be negative), not clamped, truncated or made absolute')
+    dm = prog.mod('strategy_ddmin')
+    f = dm.func('_worker')
+    where = 'strategy_ddmin._worker'
+    fields = None
+    for st in dm.tree.body:
+        if isinstance(st, ast.Assign) and isinstance(
+                st.value, ast.Call) and (call_name(st.value) or '').endswith(
+                    'namedtuple') and isinstance(
+                        st.targets[0], ast.Name) and \
+                st.targets[0].id == 'Result' and len(st.value.args) == 2 \
+                and isinstance(st.value.args[1], (ast.List, ast.Tuple)):
+            fields = [x.value for x in st.value.args[1].elts
+                      if isinstance(x, ast.Constant)]
+    if not fields or 'reduced' not in fields or 'success' not in fields:
+        raise AnalysisError('C03.R15: the Result record of strategy_ddmin '
+                            f'has the fields {fields}')
+    ir, isucc = fields.index('reduced'), fields.index('success')
+
+    def exact(e, depth=0):
+        """None if e is count(A) - count(B) with one counter"""
+        if depth > 4:
+            return f'"{unparse(e)[:40]}"'
+        if isinstance(e, ast.Name):
+            ds = [st.value for st in ast.walk(f) if isinstance(
+                st, ast.Assign) and any(isinstance(t, ast.Name)
+                                        and t.id == e.id
+                                        for t in st.targets)]
+            augs = [st for st in ast.walk(f) if isinstance(
+                st, ast.AugAssign) and isinstance(st.target, ast.Name)
+                and st.target.id == e.id]
+            if augs:
+                return f'"{unparse(augs[0])[:40]}" modifies it'
+            if not ds:
+                return f'"{e.id}" has no definition here'
+            for d in ds:
+                r = exact(d, depth + 1)
+                if r:
+                    return r
+            return None
+        if isinstance(e, ast.BinOp) and isinstance(e.op, ast.Sub) and \
+                isinstance(e.left, ast.Call) and isinstance(
+                    e.right, ast.Call) and call_name(e.left) and \
+                call_name(e.left) == call_name(e.right):
+            return None
+        return f'"{unparse(e)[:50]}"'
+
+    n = 0
+    for c in ast.walk(f):
+        if not (isinstance(c, ast.Call) and isinstance(c.func, ast.Name)
+                and c.func.id == 'Result'):
+            continue
+        args = {}
+        for i, a in enumerate(c.args):
+            if i < len(fields):
+                args[fields[i]] = a
+        for k_ in c.keywords:
+            if k_.arg:
+                args[k_.arg] = k_.value
+        su = args.get('success')
+        if not (isinstance(su, ast.Constant) and su.value is True):
+            continue
+        if 'reduced' not in args:
+            continue
+        n += 1
+        why = exact(args['reduced'])
+        chk.check('C03.R15', where, c, why is None,
+                  f'the "reduced" field of an accepted result is {why}, not '
+                  'the difference of the size before and after: a round '
+                  'that shrinks and grows the input by the same amount '
+                  'counts as progress, and reduce() is left only on a round '
+                  'without progress - the same inputs are visited for ever',
+                  loc=dm.loc(c), nontrivial=True)
+    chk.floor('C03.R15', 'accepted results built by the worker', n, 1)
+
+
 def run(tier):
     prog = Program()
     chk = Check(
@@ -1772,6 +1852,13 @@ def run(tier):
               'protocol methods store nothing on the object, the class or '
               'module-level containers except option values and constants',
               'a guard that consults a stale table lets the very pair of rewrites through that it exists to break (replace by variable / inline again)')
+    from .. import dupcalls
+    chk.guard(dupcalls.report, chk, prog, 'C03.R14',
+              'a self-recursive inference function of smtlib.py asks for '
+              'each sub-result once per path (the functions are not '
+              'memoised)',
+              'a filter does not deliver its verdict in time bounded by a small function of the input size')
+    chk.guard(rule_r15, chk, prog)
     extra = None
     if tier == 'thorough':
         from .. import selftest
